@@ -103,9 +103,8 @@ theorem un_ref {w : World} {hc : HCfg} {b Ks n : Nat} {rec : Rec} (cx : Ctx w hc
   | .bytes, _, g, _, _, _, hv, hd, _, hs, hk, _, hok =>
     un_scalar_ref cx g hv hd hs hk hok _ (Or.inr (Or.inr (Or.inr (Or.inl rfl))))
   | .bool, _, g, _, _, _, hv, hd, _, hs, hk, _, hok =>
-    un_scalar_ref cx g hv hd hs hk hok _ (Or.inr (Or.inr (Or.inr (Or.inr (Or.inl rfl)))))
-  | .lit vs, _, g, _, _, _, hv, hd, _, hs, hk, _, hok =>
-    un_scalar_ref cx g hv hd hs hk hok _ (Or.inr (Or.inr (Or.inr (Or.inr (Or.inr ⟨vs, rfl⟩)))))
+    un_scalar_ref cx g hv hd hs hk hok _ (Or.inr (Or.inr (Or.inr (Or.inr rfl))))
+  | .lit vs, _, g, _, _, _, hv, hd, _, hs, hk, _, hok => un_lit_ref cx g hv hd hs hk hok vs
   | .enum e, _, g, _, _, _, hv, hd, _, hs, hk, _, hok => un_enum_ref cx g hv hd hs hk hok e
   | .coll sk t, _, g, _, _, _, hv, hd, _, hs, hk, hcf, hok => un_coll_ref cx g hv hd hs hk hok sk t hcf
   | .tupleHet ts, _, g, _, _, _, hv, hd, _, hs, hk, hcf, hok => un_tupleHet_ref cx g hv hd hs hk hok ts hcf
